@@ -16,7 +16,7 @@ ASSUMPTIONS = ['world.testing/log.testing off; Python asserts enabled (no -O)']
 LEVEL_TEXT = ('Coq theorems over an executable Gallina model of ircmsgs.py (tag escaping, tag dict, string branch of IrcMsg.__init__, __str__): '
               'tag-value round trip for all strings, str() stable under its cache, parse(serialize m) = norm m for all well-formed m (any tags, prefix, middles, arbitrary trailing), '
               'parsing total for EVERY string, the nick/user/host split after the try included (C05_parse_total: a value or MalformedIrcMsg, nothing else; findings F3 and F30 repaired; '
-              'C05_split_hostmask_total: splitHostmask answers on all isUserHostmask accepts and the pieces rejoin); the model is tied to the source by a regenerated '
+              'C05_split_hostmask_total: splitHostmask answers on all isUserHostmask accepts and the pieces rejoin); the receive path drivers.parseMsg = strip() + IrcMsg is modelled too: total (C05_parsemsg_total), terminator-insensitive (C05_parse_terminator), round trip for every message whose line loses only its CR LF to strip() (C05_parsemsg_serialize_on_domain) and refuted outside (C05_parsemsg_roundtrip_refuted = known finding C05.F32); the model is tied to the source by a regenerated '
               'escape table / except-clause list and by a differential run (exhaustive short hostile lines + generated messages) against the real IrcMsg on every check.')
 LEVEL_NOTE = ('Trusted: Coq kernel, gen_tables.py, ExtrOcamlBasic extraction + OCaml driver, the Python harness; datetime.strptime is a Section '
               'variable (any function); Python code is modelled not verified; the re-serialisation clause is the _str cache (trivial in the model, checked directly on the implementation).')
@@ -57,19 +57,30 @@ def dec_msg(v):
     return [tags, wire.s(v[1]), wire.s(v[2]), wire.ls(v[3])] + [wire.s(x) for x in v[4:7]]
 
 
-def model_parse_pick(out, line):
-    """the model returns the result for valid_time=true and =false; pick by the real strptime on the time tag"""
-    r_true, r_false = wire.r(out[0], dec_msg), wire.r(out[1], dec_msg)
+def model_parse_pick(out, line, opt=False):
+    """the model returns the result for valid_time=true and =false; pick by the real strptime on the time tag.
+    opt: the payload is an option (drivers.parseMsg: None for a blank line)"""
+    dec = (lambda v: wire.o(v, dec_msg)) if opt else dec_msg
+    r_true, r_false = wire.r(out[0], dec), wire.r(out[1], dec)
     if r_true == r_false:
         return r_true
     # they differ only when a time tag with a value exists: r_true is Ok with that tag
-    tv = dict((k, v) for k, v in r_true[1][0]).get('time') if r_true[0] == 'ok' else None
+    tv = dict((k, v) for k, v in r_true[1][0]).get('time') if (r_true[0] == 'ok' and r_true[1] is not None) else None
     return r_true if (tv is not None and strptime_ok(tv)) else r_false
 
 
-# no known findings: C05.F3 (valueless time tag -> TypeError) and C05.F30 (prefix a!b@c!d -> ValueError out of
-# splitHostmask) are repaired; their witnesses stay in CORPUS_LINES
-CLASSES = {}
+# C05.F3 (valueless time tag -> TypeError) and C05.F30 (prefix a!b@c!d -> ValueError out of splitHostmask) are repaired;
+# their witnesses stay in CORPUS_LINES.  C05.F32 (known finding): drivers.parseMsg strips the line, so whitespace at the
+# very end of the last argument (or at the very start/end of the line) does not survive the receive path.
+def edge_ws(g):
+    """the line of this message loses more than its CR LF to str.strip(): first or last character is whitespace"""
+    c = g['command']
+    first = '@' if g['tags'] else (':' if g['prefix'] else c[:1])
+    last = (g['args'][-1][-1:] or ':') if g['args'] else c[-1:]
+    return first.strip() == '' or last.strip() == ''
+
+
+CLASSES = {'recv_edge_ws': lambda inp: inp.get('op') == 'recv' and edge_ws(inp['msg'])}
 
 
 def check_line(ctx, ircmsgs, line, mout, kind):
@@ -202,6 +213,37 @@ def check_msg(ctx, ircmsgs, g, mout, mout2=None):
             ctx.fail(inp, 'round trip: built %r, serialised %r, parsed back %r' % (want[1], line, ir))
 
 
+def check_recv(ctx, ircmsgs, drivers, g, mout):
+    """the receive path: drivers.parseMsg(str(msg)) gives the message back (theorem C05_parsemsg_serialize_on_domain)"""
+    if not wf_msg(g):
+        return
+    inp = {'op': 'recv', 'msg': g}
+    ctx.case('receive-path' + ('-edge-whitespace' if edge_ws(g) else ''), inp)
+    line = str(ircmsgs.IrcMsg(prefix=g['prefix'], command=g['command'], args=tuple(g['args']),
+                              server_tags=dict(g['tags']) if g['tags'] else None))
+    ir = impl_parsemsg(ircmsgs, drivers, line)
+    if mout is not None:
+        mr = model_parse_pick(mout, line, opt=True)
+        if mr != ir:
+            ctx.disagree(inp, mr, ir, 'drivers.parseMsg(str(msg))')
+    norm = [[k, (v if v != '' else None)] for k, v in g['tags'].items()]
+    want = [norm, g['prefix'], g['command'], list(g['args'])]
+    if ir[0] != 'ok' or ir[1] is None or ir[1][:4] != want:
+        ctx.fail(inp, 'receive path: built %r, line %r, drivers.parseMsg gives %r' % (want, line, ir))
+
+
+def impl_parsemsg(ircmsgs, drivers, line):
+    try:
+        m = drivers.parseMsg(line)
+    except ircmsgs.MalformedIrcMsg:
+        return ('raise', 'MalformedIrcMsg')
+    except Exception as e:
+        return ('raise', type(e).__name__)
+    if m is None:
+        return ('ok', None)
+    return ('ok', [[[k, v] for k, v in m.server_tags.items()], m.prefix, m.command, list(m.args), m.nick, m.user, m.host])
+
+
 def msg_wire(g):
     return [1, [[[k, wire.opt(v)] for k, v in g['tags'].items()], g['prefix'], g['command'], g['args']]]
 
@@ -244,6 +286,18 @@ def run(ctx):
     outs = ctx.model([[0, l] for l, _ in lines])
     for (l, kind), mo in zip(lines, outs):
         check_line(ctx, ircmsgs, l, mo, kind)
+    # the same lines through drivers.parseMsg (strip, then IrcMsg): correspondence + totality
+    import supybot.drivers as drivers
+    outs = ctx.model([[6, l] for l, _ in lines])
+    for (l, kind), mo in zip(lines, outs):
+        inp = {'op': 'parsemsg', 'line': l}
+        ir = impl_parsemsg(ircmsgs, drivers, l)
+        if mo is not None:
+            mr = model_parse_pick(mo, l, opt=True)
+            if mr != ir:
+                ctx.disagree(inp, mr, ir, 'drivers.parseMsg(line)')
+        if ir[0] == 'raise' and ir[1] != 'MalformedIrcMsg':
+            ctx.fail(inp, 'drivers.parseMsg raised %s instead of MalformedIrcMsg' % ir[1])
     # ircutils.isUserHostmask / splitHostmask on their own: exhaustive over a small alphabet
     import supybot.ircutils as ircutils
     hml = 6 if ctx.scale == 1 else 7
@@ -271,6 +325,17 @@ def run(ctx):
     mo2 = ctx.model([[4, msg_wire(g)[1]] for g in gs])
     for g, o, o2 in zip(gs, mo, mo2):
         check_msg(ctx, ircmsgs, g, o, o2)
+    rg = [g for g in gs if wf_msg(g)]
+    rlines = []
+    for g in rg:
+        try:
+            rlines.append(str(ircmsgs.IrcMsg(prefix=g['prefix'], command=g['command'], args=tuple(g['args']),
+                                             server_tags=dict(g['tags']) if g['tags'] else None)))
+        except Exception:
+            rlines.append('')
+    ro = ctx.model([[6, l] for l in rlines])
+    for g, o in zip(rg, ro):
+        check_recv(ctx, ircmsgs, drivers, g, o)
 
 
 def replay(ctx, inp):
@@ -280,6 +345,14 @@ def replay(ctx, inp):
         check_line(sub, ircmsgs, inp['line'], None, 'replay')
     elif inp['op'] == 'build':
         check_msg(sub, ircmsgs, inp['msg'], None)
+    elif inp['op'] == 'recv':
+        import supybot.drivers as drivers
+        check_recv(sub, ircmsgs, drivers, inp['msg'], None)
+    elif inp['op'] == 'parsemsg':
+        import supybot.drivers as drivers
+        ir = impl_parsemsg(ircmsgs, drivers, inp['line'])
+        if ir[0] == 'raise' and ir[1] != 'MalformedIrcMsg':
+            sub.fail(inp, 'drivers.parseMsg raised %s' % ir[1])
     elif inp['op'] == 'hostmask':
         import supybot.ircutils as ircutils
         check_hostmask(sub, ircutils, inp['hostmask'], None)
